@@ -24,7 +24,10 @@ ASSUMPTIONS = [
 MIN_NONTRIVIAL = {"quick": 5000, "thorough": 100000}
 REQUIRED_COUNTERS = {"obs_exiting": {"quick": 500, "thorough": 5000},
                      "obs_in_aenter": {"quick": 100, "thorough": 1000},
-                     "obs_exc_exit": {"quick": 50, "thorough": 500}}
+                     "obs_exc_exit": {"quick": 50, "thorough": 500},
+                     "frames_with_c_level_manager": {"quick": 300, "thorough": 3000},
+                     "frames_with_alias_named_exit": {"quick": 300, "thorough": 3000},
+                     "frames_with_falsy_manager": {"quick": 300, "thorough": 3000}}
 SHARD_TIMEOUT = {"quick": 400, "thorough": 5400}
 INTERPS = ["3.12", "3.11", "3.10", "3.9"]
 
@@ -79,6 +82,13 @@ def worker(spec):
         frames_with_ctx = 0
         for i, fr in enumerate(st.frames):
             exp = run.truth(id(fr.pyframe))
+            kinds = set(type(m).__name__ for m, _, _ in exp)
+            if "SC" in kinds:
+                res.count("frames_with_c_level_manager")
+            if "SX" in kinds or "AX" in kinds:
+                res.count("frames_with_alias_named_exit")
+            if "SF" in kinds or "AF" in kinds:
+                res.count("frames_with_falsy_manager")
             if len(exp) >= 11:
                 res.count("obs_with_11_or_more_active_contexts")
             if exp:
